@@ -479,6 +479,25 @@ where
                     w.maintain();
                     ev = json!({"op":"Maintain","w":wi+1,"panic":""});
                 }
+                "copymark" => {
+                    // (determinism scripts only) a copy of one entity's marker is inserted for another
+                    // entity by hand, so that several live entities carry one id; which of them the
+                    // allocator resolves the id to afterwards must still be a function of the history
+                    if let (Some(src), Some(dst)) = (h(&op["h"], &handles), h(&op["to"], &handles)) {
+                        let m = w.read_storage::<M>().get(src).cloned();
+                        if let Some(m) = m {
+                            let _ = w.write_storage::<M>().insert(dst, m);
+                        }
+                        ev = json!({"op":"CopyMark","w":wi+1,"h":hj(src),"to":hj(dst),"panic":""});
+                    }
+                }
+                "resolve" => {
+                    // which entity the allocator resolves a marker id to
+                    let id = M::from_js(&op["m"]);
+                    let al = w.read_resource::<M::Allocator>();
+                    let r = al.retrieve_entity_internal(id.id());
+                    ev = json!({"op":"Resolve","w":wi+1,"m":id.idjs(),"res":r.map(hj).unwrap_or(json!([])),"panic":""});
+                }
                 "amaintain" => {
                     {
                         let ents = w.entities();
